@@ -146,4 +146,20 @@ var props = []propCfg{
 		LevelNote: "Trusted: go/parser for reading the emitted switch; the candidate renderer. Case names KaseN are chosen so that a diagnostic naming a case can be recognised without depending on the message wording.",
 		DesignRef: "DESIGN.md section 4, C09",
 	},
+	{
+		ID: "C15", Pkg: "props/c15", Needs: []string{"fc"},
+		Tests: []testCfg{
+			{Name: "TestTypesExhaustive", ShardsQ: 16, ShardsT: 16},
+			{Name: "TestTypesSampled", Rapid: true, Quick: 3200, Thorough: 80000, ShardsQ: 16, ShardsT: 16},
+		},
+		Rule:      "a type-expression AST over {int,string,bool,float,any, user record/union, external ext.Thing, package-_ type} with constructors [] , 2/3-tuples, 1/2-argument function types (incl. ()->A, A->(), A->B->()), generic user G<T>, external ext.Box<T>, ext.Pair<K,V>; printed with minimal parentheses by the documented precedence ([] > * > ->, flat arrows) and optionally redundant parentheses; placed in parameter annotation, record field, union payload, package_info signature (read from the closure type of a partial application) and explicit type argument. Exhaustive: all expressions with <= 1 constructor over the full atom set in all 5 positions (1,836 expressions) plus all 2-constructor expressions over {int,string,ext.Thing} in the record-field position (quick) / all positions and 3 constructors over {int,ext.Thing} in the field position (thorough); sampled: rapid expressions to depth 3 with redundant parentheses in all positions. The Go type found at the position (go/parser, go/types.ExprString) must equal the reference translation. One evaluation = one (expression, position) comparison. Non-trivial = combines >= 2 of {slice, tuple, function, generic} or carries redundant parentheses; distinct = hash of the expression text (per position set).",
+		Technique: "exhaustive enumeration of small type expressions + property-based testing (rapid) against a reference type translator",
+		Assumptions: []string{
+			"the property statement's grammar is the authority ([] binds tighter than *), as it says",
+			"() occurs only as the sole argument or the result of a function type",
+		},
+		LevelText: "Every type expression up to the stated size is enumerated and compared, in each syntactic position, with an independently written translation of the documented grammar; deeper expressions and redundant parenthesisation are explored by generated cases. Exhaustive within the bound, exploration beyond.",
+		LevelNote: "Trusted: go/parser and go/types.ExprString for reading the emitted type; the 40-line reference translator.",
+		DesignRef: "DESIGN.md section 4, C15",
+	},
 }
